@@ -7,6 +7,7 @@ use rand::prelude::*;
 use serde::Deserialize;
 use serde_json::{json, Value};
 use slotted_egraphs::*;
+use std::time::Instant;
 use std::cell::RefCell;
 use std::collections::{BTreeMap, HashMap};
 use std::io::Write;
@@ -204,6 +205,18 @@ fn matches_equal(eg: &EGraph<A, ConstFold>, rules: &[RuleJ]) -> bool {
     true
 }
 
+fn ceil_ms(d: std::time::Duration) -> u64 { ((d.as_nanos() + 999_999) / 1_000_000) as u64 }
+
+/// bracket of the loop's own clock at the limit check of iteration i:
+/// lo = end of hook i - start of hook 0 (the loop started its clock before the first hook),
+/// hi = (start of hook i+1, or the return of the call) - the time just before the call.
+fn clock_bracket(stamps: &[(Instant, Instant)], i: usize, t_call: Instant, t_ret: Instant) -> (u64, u64) {
+    if stamps.is_empty() || i >= stamps.len() { return (0, ceil_ms(t_ret - t_call)); }
+    let lo = (stamps[i].1 - stamps[0].0).as_millis() as u64;
+    let next = if i + 1 < stamps.len() { stamps[i + 1].0 } else { t_ret };
+    (lo, ceil_ms(next - t_call))
+}
+
 fn main() {
     let args: Vec<String> = std::env::args().collect();
     let rf: RulesFile = serde_json::from_str(&std::fs::read_to_string(&args[1]).unwrap()).unwrap();
@@ -227,6 +240,11 @@ fn main() {
         let node_limit = *[20usize, 40, 60, 100].choose(&mut rng).unwrap();
         let hook_fail_at: Option<usize> = if rng.gen_bool(0.2) { Some(rng.gen_range(0..3)) } else { None };
         let extraction_subst = rng.gen_bool(0.5);
+        // time limits: far away (the library's defaults), zero, or 5 s (never reached by these runs:
+        // a TimeLimit stop would have to be justified by the recorder's own clock)
+        let time_mode = *["far", "far", "far", "zero", "mid"].choose(&mut rng).unwrap();
+        let time_limit_ms: u64 = match (kind, time_mode) { (_, "zero") => 0, (_, "mid") => 5_000, ("runner", _) => 60_000, _ => 1_000_000 };
+        let hook_sleep = std::time::Duration::from_millis(if time_mode == "far" { 0 } else { 3 });
         if std::env::var("VERIF_RW_DEBUG").is_ok() && run >= 999999 { eprintln!("run {run}: {kind} {start_txt} {rule_names:?} iter_limit={iter_limit} node_limit={node_limit} ext={extraction_subst}"); }
         let st = start_txt.clone();
         let rules2 = rules.clone();
@@ -237,7 +255,7 @@ fn main() {
             subterms(&start, &mut tracked);
             TRACKED.with(|t| *t.borrow_mut() = tracked.clone());
             let rws: Vec<Rewrite<A, ConstFold>> = rules2.iter().map(mk_rule).collect();
-            evs.push(json!({"ev":"reset","kind":kind,"iter_limit":iter_limit,"node_limit":node_limit,"start":st,"rules":rules2.iter().map(|r| r.name.clone()).collect::<Vec<_>>(),
+            evs.push(json!({"ev":"reset","kind":kind,"iter_limit":iter_limit,"node_limit":node_limit,"time_limit_ms":time_limit_ms,"start":st,"rules":rules2.iter().map(|r| r.name.clone()).collect::<Vec<_>>(),
                             "subst": if extraction_subst {"extraction"} else {"synexpr"}}));
             let mut eg: EGraph<A, ConstFold> = if extraction_subst { EGraph::with_subst_method::<ExtractionSubst>(ConstFold) } else { EGraph::new(ConstFold) };
             if kind == "manual" {
@@ -253,23 +271,30 @@ fn main() {
             } else if kind == "runner" {
                 let mut runner: Runner<A, ConstFold, IterFp, String> = Runner::new(ConstFold).with_egraph(eg).with_expr(&start)
                     .with_iter_limit(iter_limit).with_node_limit(node_limit);
+                if time_mode != "far" { runner = runner.with_time_limit(std::time::Duration::from_millis(time_limit_ms)); }
                 // the hook fails at the chosen iteration, and also when the e-graph explodes
                 // (a run-away saturation would otherwise make the recorder itself unbounded)
-                let hook_log: Rc<RefCell<Vec<bool>>> = Rc::new(RefCell::new(Vec::new()));
+                let hook_log: Rc<RefCell<Vec<(bool, Instant, Instant)>>> = Rc::new(RefCell::new(Vec::new()));
                 let hook_log2 = hook_log.clone();
                 runner = runner.with_hook(move |r| {
+                    let t_in = Instant::now();
+                    std::thread::sleep(hook_sleep);
                     let mut l = hook_log2.borrow_mut();
                     let ok = Some(l.len()) != hook_fail_at && r.egraph.total_number_of_nodes() <= 80;
-                    l.push(ok);
+                    l.push((ok, t_in, Instant::now()));
                     if ok { Ok(()) } else { Err("hook".to_string()) }
                 });
                 let mut prev = fingerprint(&runner.egraph, &tracked);
+                let t_call = Instant::now();
                 let report = runner.run(&rws);
+                let t_ret = Instant::now();
                 let mut hook_failed = false;
                 for (i, it) in runner.iterations.iter().enumerate() {
-                    let hook_ok = hook_log.borrow().get(i).copied().unwrap_or(true);
+                    let hl = hook_log.borrow();
+                    let hook_ok = hl.get(i).map(|x| x.0).unwrap_or(true);
                     if !hook_ok { hook_failed = true; }
-                    evs.push(json!({"ev":"iter","nodes":it.data.nodes,"num_nodes_field":it.num_nodes,"fp_changed":it.data.fp != prev,"hook_ok":hook_ok,"stop":it.data.stop}));
+                    let (lo, hi) = clock_bracket(&hl.iter().map(|x| (x.1, x.2)).collect::<Vec<_>>(), i, t_call, t_ret);
+                    evs.push(json!({"ev":"iter","nodes":it.data.nodes,"num_nodes_field":it.num_nodes,"fp_changed":it.data.fp != prev,"hook_ok":hook_ok,"stop":it.data.stop,"lo_ms":lo,"hi_ms":hi}));
                     prev = it.data.fp.clone();
                 }
                 let reason = reason_name(&report.stop_reason);
@@ -282,31 +307,38 @@ fn main() {
                     again = fingerprint(&runner.egraph, &tracked) != b;
                 }
                 evs.push(json!({"ev":"stop","reason":reason,"iterations":report.iterations,"report_nodes":report.egraph_nodes,"actual_nodes":actual,
-                                "again_fp_changed":again,"matches_equal":meq,"hook_failed":hook_failed}));
+                                "again_fp_changed":again,"matches_equal":meq,"hook_failed":hook_failed,"total_hi_ms":ceil_ms(t_ret - t_call)}));
                 let root = runner.roots[0].clone();
                 if runner.egraph.total_number_of_nodes() <= 200 { dump_events(&runner.egraph, &start, &root, &mut evs); }
             } else {
                 let root = eg.add_expr(start.clone());
-                let log: Rc<RefCell<Vec<(usize, Vec<usize>, bool)>>> = Rc::new(RefCell::new(Vec::new()));
+                let log: Rc<RefCell<Vec<(usize, Vec<usize>, bool, Instant, Instant)>>> = Rc::new(RefCell::new(Vec::new()));
                 let log2 = log.clone();
                 let tr = tracked.clone();
                 let first = fingerprint(&eg, &tracked);
-                let report = run_eqsat(&mut eg, rws, iter_limit, 1000, move |g: &mut EGraph<A, ConstFold>| {
+                let t_call = Instant::now();
+                let report = run_eqsat(&mut eg, rws, iter_limit, (time_limit_ms / 1000) as usize, move |g: &mut EGraph<A, ConstFold>| {
+                    let t_in = Instant::now();
+                    std::thread::sleep(hook_sleep);
                     let mut l = log2.borrow_mut();
                     let big = g.total_number_of_nodes() > 80;
                     let ok = Some(l.len()) != hook_fail_at && !big;
-                    l.push((g.total_number_of_nodes(), if big { vec![g.total_number_of_nodes()] } else { fingerprint(g, &tr) }, ok));
+                    let fp = if big { vec![g.total_number_of_nodes()] } else { fingerprint(g, &tr) };
+                    l.push((g.total_number_of_nodes(), fp, ok, t_in, Instant::now()));
                     if l.last().unwrap().2 { Ok(()) } else { Err("hook".to_string()) }
                 });
+                let t_ret = Instant::now();
                 let reason = reason_name(&report.stop_reason);
                 let l = log.borrow();
                 let mut prev = first;
                 let mut hook_failed = false;
-                for (i, (n, fp, ok)) in l.iter().enumerate() {
+                let stamps: Vec<(Instant, Instant)> = l.iter().map(|x| (x.3, x.4)).collect();
+                for (i, (n, fp, ok, _, _)) in l.iter().enumerate() {
                     let last = i + 1 == l.len();
                     let hook_ok = *ok;
                     if !hook_ok { hook_failed = true; }
-                    evs.push(json!({"ev":"iter","nodes":n,"num_nodes_field":n,"fp_changed":fp != &prev,"hook_ok":hook_ok,"stop": if last { reason } else { "none" }}));
+                    let (lo, hi) = clock_bracket(&stamps, i, t_call, t_ret);
+                    evs.push(json!({"ev":"iter","nodes":n,"num_nodes_field":n,"fp_changed":fp != &prev,"hook_ok":hook_ok,"stop": if last { reason } else { "none" },"lo_ms":lo,"hi_ms":hi}));
                     prev = fp.clone();
                 }
                 let actual = eg.total_number_of_nodes();
@@ -319,7 +351,7 @@ fn main() {
                     again = fingerprint(&eg, &tracked) != b;
                 }
                 evs.push(json!({"ev":"stop","reason":reason,"iterations":report.iterations,"report_nodes":report.egraph_nodes,"actual_nodes":actual,
-                                "again_fp_changed":again,"matches_equal":meq,"hook_failed":hook_failed}));
+                                "again_fp_changed":again,"matches_equal":meq,"hook_failed":hook_failed,"total_hi_ms":ceil_ms(t_ret - t_call)}));
                 if eg.total_number_of_nodes() <= 200 { dump_events(&eg, &start, &root, &mut evs); }
             }
             evs
